@@ -50,7 +50,8 @@ def norm_type(t):
     return re.sub(r"\s+", "", t)
 
 
-def expand(repo="/repo", pkg="dashu-int"):
+def expand(repo=None, pkg="dashu-int"):
+    repo = repo or os.environ.get("VERIF_REPO", "/repo")
     tdir = tempfile.mkdtemp(prefix="verif-expand-")
     try:
         env = dict(os.environ, CARGO_TARGET_DIR=os.path.join(tdir, "target"), CARGO_NET_OFFLINE="true")
@@ -164,7 +165,7 @@ def gen_rs(impls):
     return "\n".join(out) + "\n", groups
 
 
-def regenerate(repo="/repo"):
+def regenerate(repo=None):
     src = expand(repo)
     impls, skipped = collect(src)
     text, groups = gen_rs(impls)
